@@ -958,6 +958,58 @@ def token_conversions(F, rep):
         rep.unresolved("R6", "token-conversions", f"only {n} library conversions of token text found in the parser module (decimal and date expected)")
 
 
+LIST_REORDERING = ("sort", "sort_by", "sort_by_key", "sort_by_cached_key", "sort_unstable", "sort_unstable_by", "sort_unstable_by_key", "reverse", "rev",
+                   "rotate_left", "rotate_right", "swap", "dedup", "dedup_by", "dedup_by_key", "retain", "retain_mut", "filter", "filter_map", "skip",
+                   "skip_while", "take", "take_while", "step_by", "truncate", "drain", "remove", "pop", "swap_remove", "split_off", "chunk_by", "last",
+                   "nth", "max_by_key", "min_by_key")
+
+
+def list_writer_keeps_order(F, rep):
+    """R1 (the LIST round-trips, not only each line): `parse(write(t)) = t` for a list means one line per transaction, in the order of
+    the list. The list-level writer — the function(s) of the dsl module from which the per-transaction writer is reached — neither
+    reorders nor thins the list: no sort (direct or through a workspace sort helper), `rev`, `dedup`, `retain`, `filter`, `skip`, `take`…
+    A writer that sorts by date and ticker "so that the file reads chronologically" returns another list for every ledger not already in
+    that order, and changes which same-day lines are adjacent for the matcher's merge (seeded change C14-s9)."""
+    from flow import sort_wrappers
+    ws = find_writer(F)
+    if len(ws) != 1:
+        return
+    w = ws[0][0]
+    wrappers = sort_wrappers(F)
+    cg = F.callgraph()
+    def reaches(x, depth=3):
+        seen, todo = set(), [(x, 0)]
+        while todo:
+            y, d = todo.pop()
+            if y in seen or d > depth:
+                continue
+            seen.add(y)
+            if y == w.id:
+                return True
+            todo += [(z, d + 1) for z in cg.get(y, ()) if z in F.bodies and F.bodies[z].crate == "cgt_core"]
+        return False
+    tops = [b for b in F.bodies.values() if b.crate == "cgt_core" and b.id != w.id and b.kind in ("fn", "method") and "::tests::" not in b.id
+            and w.id.rsplit("::", 1)[0] == b.id.rsplit("::", 1)[0] and P.user_written(F, b) and reaches(b.id)]
+    if not tops:
+        rep.unresolved("R1", "LIST-WRITER", f"no function of the writer's module reaches the per-transaction writer {w.short}")
+        return
+    for top in tops:
+        region = [top] + [c for c in F.bodies.values() if c.kind == "closure" and c.id.startswith(top.id + "::")]
+        bad = []
+        for x in region:
+            for _, t in x.calls():
+                m = parse_callee(t["callee"])[2]
+                if t["callee"] in wrappers:
+                    bad.append((x, t, f"{t['callee'].split('::')[-1]} (sorts its argument)"))
+                elif m in LIST_REORDERING and ("slice" in t["callee"] or "vec::Vec" in t["callee"] or "iter" in t["callee"].lower()):
+                    bad.append((x, t, m))
+        rep.ob("R1", f"{top.short}:list-order-kept", not bad, f"`{top.short}` writes one line per transaction in the order of its argument" if not bad else
+               f"`{top.short}` calls " + ", ".join(f"`{m}`" for _, _, m in bad[:3]) + " on the way to the per-transaction writer: the written list is not the "
+               "list it was given (reordered or thinned), so reading it back yields another list", bad[0][0].loc(bad[0][1]["sp"]) if bad else top.loc(),
+               key=f"R1:{top.short}:list-reordered")
+    rep.count("list_writers", [t.short for t in tops])
+
+
 def run(ctx, rep):
     if ctx.S is None or "error" in ctx.S["grammar"]:
         rep.unresolved("R1", "grammar", "grammar facts unavailable")
@@ -973,6 +1025,7 @@ def run(ctx, rep):
         c13.defaults(ctx.S, Grammar(ctx.S["grammar"]), r2)
         for o in r2.obligations:
             rep.ob("R1", "reader:" + o["instance"], o["ok"], o["detail"], o["site"], key="R1:reader:" + o["instance"])
+    list_writer_keeps_order(ctx.F, rep)
     json_names(ctx.F, rep)
     json_reader_domain(ctx.F, rep)
     token_conversions(ctx.F, rep)
